@@ -20,6 +20,9 @@ func init() {
 		{ID: "E1.assertion.subject-is-issuer.reject", Fn: "op.SubjectIsIssuer", P: []string{"request"}, Kind: "ret fail", Req: []string{"neq($request.Issuer, $request.Subject)"}},
 		{ID: "E8.assertion.client-is-issuer", Fn: "op.ClientJWTAuth", P: []string{"ctx", "ca", "verifier"}, Kind: "ret ok", Max: 1,
 			Req: []string{"def($profile, op.VerifyJWTAssertion(_, $ca.ClientAssertion, _), 0)", "ok(op.VerifyJWTAssertion(_, $ca.ClientAssertion, _))", "same($r0, $profile.Issuer)"}},
+		{ID: "E8.assertion.verifier-per-request-issuer", Fn: "op.(*Provider).JWTProfileVerifier", P: []string{"o", "ctx"}, Kind: "ret any", Pat: "ret(op.NewJWTProfileVerifier($o.Storage(), op.IssuerFromContext($ctx), __))", Max: 1,
+			Why: "the assertion's audience must contain the issuer of the request at hand"},
+		{ID: "E8.assertion.verifier-per-request-issuer.only", Fn: "op.(*Provider).JWTProfileVerifier", Kind: "ret any", Max: 1},
 		// request objects
 		{ID: "E1.request-object.copy", Fn: "op.ParseRequestObject", P: []string{"ctx", "authReq", "storage", "issuer"}, Kind: "call", Pat: "op.CopyRequestObjectToAuthRequest($authReq, $ro)", Max: 1,
 			Why: "request-object parameters override the query only when the object is signed by the requesting client, names it as issuer, targets this issuer and agrees with the outer client_id / response_type",
